@@ -88,6 +88,45 @@ def sub_main(prop, tier, seed, cids):
     return 0
 
 
+def choose_hash_seeds(seeds, tier, extra=2):
+    """add up to `extra` seeds so that every name set of the skeleton family (states, choices, functions,
+    stochastic transitions) is iterated in at least two different orders among the chosen seeds, where any
+    seed in 1..40 achieves that; purely a coverage heuristic, deterministic for a given family"""
+    import subprocess
+
+    from contracts.skeletons import skeletons
+
+    probes = set()
+    for sk in skeletons(tier):
+        for names in ([n for n, _ in sk.states], [n for n, _ in sk.choices], [n for n, _, r in sk.functions if r == "stoch"], [n for n, _, _ in sk.functions], sk.variables):
+            if len(names) >= 2:
+                probes.add(tuple(sorted(names)))
+    probes = sorted(probes)
+    code = "import sys,json; print(json.dumps([list(set(p)) for p in json.loads(sys.argv[1])]))"
+
+    def orders(sd):
+        r = subprocess.run([sys.executable, "-c", code, json.dumps(probes)], env=dict(os.environ, PYTHONHASHSEED=str(sd)), capture_output=True, text=True)
+        return [tuple(x) for x in json.loads(r.stdout)]
+
+    chosen = list(seeds)
+    seen = [set() for _ in probes]
+    for sd in chosen:
+        for i, o in enumerate(orders(sd)):
+            seen[i].add(o)
+    for sd in range(1, 41):
+        if len(chosen) >= len(seeds) + extra or all(len(x) >= 2 for x in seen):
+            break
+        if sd in chosen:
+            continue
+        o = orders(sd)
+        gain = sum(1 for i, x in enumerate(seen) if len(x) < 2 and o[i] not in x)
+        if gain:
+            chosen.append(sd)
+            for i, oo in enumerate(o):
+                seen[i].add(oo)
+    return chosen
+
+
 def hash_seed_reruns(prop, tier, seed, spec):
     """re-prove the listed contracts in fresh processes with other PYTHONHASHSEED values (C09: set
     iteration orders must not matter); obligation ids get a suffix naming the hash seed"""
@@ -98,6 +137,7 @@ def hash_seed_reruns(prop, tier, seed, spec):
         return []
     out = []
     seeds = hs.get("seeds_thorough", hs["seeds"]) if tier == "thorough" else hs["seeds"]
+    seeds = choose_hash_seeds(seeds, tier)
     procs = []
     for s_ in seeds:
         env = dict(os.environ, PYTHONHASHSEED=str(s_), PYVC_JOBS=str(max(2, 16 // len(seeds))))
@@ -120,6 +160,33 @@ def hash_seed_reruns(prop, tier, seed, spec):
     return out
 
 
+def compare_fingerprints(base, reruns):
+    """(C09) results recorded with `k.fingerprint` must be the same terms under every hash seed: one
+    obligation per recorded name and contract instance, discharged by comparing the texts of all runs"""
+    runs = {}
+    for r in list(base) + list(reruns):
+        for nm, texts in (r.get("fingerprints") or {}).items():
+            runs.setdefault((r["cid"], r["instance"], r.get("target"), r.get("scope", "?")), {}).setdefault(nm, []).append(tuple(texts))
+    out = []
+    for (cid, inst, target, scope), names in runs.items():
+        rec = {"cid": cid, "target": target, "instance": inst, "scope": scope, "obligations": [], "trusted": [], "undecided": [], "violations": [], "checker_errors": [], "solver_s": 0.0}
+        for nm, seen in names.items():
+            if len(seen) < 2:
+                continue
+            oid = f"{cid}#same-under-every-hash-seed[{nm}][{inst}]"
+            same = all(x == seen[0] for x in seen)
+            rec["obligations"].append({"id": oid, "kind": "post", "scope": scope, "status": "proved" if same else "refuted", "backend": "term-comparison", "secs": 0.0})
+            if not same:
+                path = os.path.join(ROOT, "out", "replays", "hash-seeds", re.sub(r"[^A-Za-z0-9_.-]+", "_", oid)[:150] + ".json")
+                os.makedirs(os.path.dirname(path), exist_ok=True)
+                with open(path, "w") as fh:
+                    json.dump({"contract": cid, "target": target, "instance": inst, "failed_obligation": oid, "reproduced_on_real_code": False, "inputs": None, "verifier_output": {"terms_per_run": [list(x) for x in seen], "note": "the recorded result differs between runs under different PYTHONHASHSEED values"}}, fh, indent=1)
+                rec["violations"].append({"obligation": oid, "name": nm, "status": "refuted", "backend": "term-comparison", "reason": "differs between hash seeds", "replay": path, "reproduced": False, "detail": "refuted"})
+        if rec["obligations"]:
+            out.append(rec)
+    return out
+
+
 def check_property(prop, tier, seed):
     import contracts  # noqa: F401
     from props import PROPS
@@ -134,7 +201,8 @@ def check_property(prop, tier, seed):
         return EXIT_ERROR
     trials = spec.get("native_trials", 8) if tier == "thorough" else spec.get("native_trials_quick", 0)
     jobs, results = run_jobs(cids, tier, seed, prop, trials)
-    results = results + hash_seed_reruns(prop, tier, seed, spec)
+    reruns = hash_seed_reruns(prop, tier, seed, spec)
+    results = results + reruns + compare_fingerprints(results, reruns)
 
     known = load_known()
     obligations = discharged = 0
